@@ -1,5 +1,6 @@
 #!/bin/bash
-# harmless.sh <outdir> <diff>... : apply each behaviour-preserving diff to a scratch copy of /repo and run ALL checks on it.
+# harmless.sh <outdir> <diff>... : apply each behaviour-preserving diff to a scratch copy of /repo and run on it every check that
+# reads code the diff touches (tools/matrix_plan.py --patch).
 # Any VIOLATION is a false alarm of the machinery (or the diff is not behaviour-preserving: read it); exit 3 = the edit
 # left the verifier's language subset / a harness assumption (reported, not an alarm).
 out=$1; shift; mkdir -p $out
@@ -8,12 +9,14 @@ one() { df=$1; out=$2; ids="$3"; nm=$(echo $df | sed 's#/#_#g; s#^_tmp_wth_##; s
   d=$(mktemp -d /tmp/hl-XXXX); git -C /repo archive HEAD | tar -x -C $d
   (cd $d && git init -q . && git apply $df) || { echo "$nm APPLY-FAILED" >> $out/harmless.txt; rm -rf $d; return; }
   line="$nm"
+  plan=" $(python3 /verif/tools/matrix_plan.py --patch $df | cut -d: -f2) "
   for p in $ids; do
+    case "$plan" in *" $p "*) ;; *) continue;; esac     # a check that reads none of the touched code cannot change
     o=$(cd ${VERIF_HOME:-/verif} && VERIF_REPO=$d VERIF_OUT_DIR=$d/_out timeout 1500 ./check $p 2>&1 | grep -v '^WARNING')
     rc=$(echo "$o" | grep -q '^VIOLATION' && echo 1 || (echo "$o" | grep -q 'CHECKER-ERROR\|VACUITY' && echo 3 || (echo "$o" | grep -q UNDECIDED && echo 2 || echo 0)))
     [ "$rc" != 0 ] && { line="$line $p=$rc"; echo "$o" > $out/$nm.$p.log; }
   done
   echo "$line" >> $out/harmless.txt; rm -rf $d; }
 export -f one
-for s in "$@"; do echo $s; done | xargs -P 4 -I{} bash -c "one {} $out \"$ids\""
+for s in "$@"; do echo $s; done | xargs -P 6 -I{} bash -c "one {} $out \"$ids\""
 sort $out/harmless.txt
